@@ -222,9 +222,9 @@ class Edges(object):
             what = "all" if len(bad) == len(rn.OUTPUTS) else "+".join(bad)
             exp = dict((k, (A[k] * fa if k != "penetration" else A[k] / fa)) for k in rn.OUTPUTS
                        if A[k] is not None and not isinstance(A[k], complex))
-            self.acc.violation("%s:%s:%s" % (edge, what, cls), case, exp,
+            self.acc.violation("%s:%s" % (edge, cls), case, exp,
                                dict((k, repr(B[k])) for k in rn.OUTPUTS),
-                               standalone=self.snippet(srcs), detail=dict(failing=bad, factor=fa))
+                               standalone=self.snippet(srcs), detail=dict(failing=bad, failing_set=what, factor=fa))
             return False
         return True
 
